@@ -226,6 +226,21 @@ CLAIMED.update({
              "results are oracle-only.",
         technique="Coq proof (heap frame invariant by induction over operation histories) + history oracle and differential correspondence",
     ),
+    "C18": dict(
+        category="proof",
+        text="Node calls of any number of runs interleave arbitrarily over one heap (Isolation.v: get_value_source order, deep copy for DEFAULT only, "
+             "bodies that mutate what they receive). Proved for every schedule: objects no run references - all signature-default objects - are never "
+             "modified; edge / provided / bound values arrive as the very same object, a default as a fresh one; the caller's mapping and the bindings "
+             "are never written; when only default-resolved parameters are mutated no pre-existing object changes and every body sees the initial "
+             "contents (pristine defaults) whatever other runs did. Tied to /repo by histories of 2-4 runs (one runner / fresh runners, sync / async "
+             "sequential / async concurrent with random suspension points, a second graph over the same node objects, nested graphs with narrowed "
+             "selection): defaults unchanged, pristine-on-entry, equal inputs => equal results, caller dict unchanged, object identities; the recorded "
+             "interleaving is replayed in the model and what every body saw / produced / received must agree.",
+        design_ref="DESIGN.md section 5 C18",
+        note="'equal results' is proved as: every body sees the same entry contents (a deterministic body then returns the same value); nested "
+             "histories are oracle-only; deepcopy is modelled on flat lists of ints.",
+        technique="Coq proof (frame and entry-contents invariants by induction over arbitrary interleavings) + run-history oracle and differential correspondence",
+    ),
 })
 
 REASON_TODO = "not claimed yet: model/theorems for this property are not built in this revision (see DESIGN.md section 10)"
